@@ -27,6 +27,8 @@ EXPLANATION = (
     'AttributeConverter has an exact-match operator() for every alternative of AttributeValue returning the owned variant. '
     'C04.R7 (setter completeness): in every SpanData setter each parameter reaches a member write on every path.')
 EXPLANATION += ' C04.R8 (callback contract): the copy callbacks handed to ForEachKeyValue by the span, event and link recordables return true on every path (a false stops the iteration and silently truncates the list). C04.R9 (clock agreement): a SteadyTimestamp default comes from steady_clock and a SystemTimestamp default from system_clock, so end - start is a difference of the same clock.'
+ROUND2_EXPLANATION = (" C04.R5 also: the flags handed to the recordable are read from the span's own context only. C04.R10 (call order): SpanData::AddEvent / AddLink append (push_back / emplace_back / insert at end()). Shared C19.R1: no string_view::data() without the view's length in the attribute conversion and the trace SDK.")
+EXPLANATION += ROUND2_EXPLANATION
 NOT_DECIDED = 'that the stored values equal the inputs (value semantics of the copies), ordering of events/links in the containers.'
 
 BORROWING = ('opentelemetry::nostd::string_view', 'std::basic_string_view', 'opentelemetry::nostd::span<', 'std::span<',
